@@ -27,7 +27,7 @@ TIERS = {
     # dup_every: every k-th job is also sent to another driver process
     # det_seeds: repetitions / threads only on the runs of the first d seeds of a job
     "quick": dict(repeat=2, threads=2, det_seeds=5, dup_every=4, timeout=180.0),
-    "thorough": dict(repeat=3, threads=4, det_seeds=12, dup_every=3, timeout=900.0),
+    "thorough": dict(repeat=3, threads=3, det_seeds=8, dup_every=3, timeout=900.0),
 }
 
 
@@ -72,6 +72,8 @@ def make_jobs(tier, seed):
                 "repeat": cfg["repeat"],
                 "threads": cfg["threads"],
                 "det_seeds": cfg["det_seeds"],
+                # C16 is stated for the default language version; C16_PLUTUS=v2 reproduces NOTES.md observation O1
+                "plutus": os.environ.get("C16_PLUTUS", "v3"),
             }
             jobs.append(job)
             meta[jid] = dict(fuzzer=fz, spec=spec, expectation=exp, src=src, mode=model.MODES[exp])
